@@ -244,7 +244,7 @@ def library_flags(mod, lib):
     return {"line": {"op": "flags", "table": table, "classes": classes}, "impl": {"flags": impl}}
 
 
-def model_graph(objs, closed=True, lib=None, stats=None):
+def model_graph(objs, closed=True, lib=None, stats=None, table_idx=None):
     """the state of the real objects, as the Lean model's input (nodes beyond len(objs): see `closure`).
     With `lib` (the cfggen library the classes were generated from) every argument is sent as its *declaration* and the
     model derives the flags itself (`ArgDecl.mkArg`); classes / declaration forms the library does not describe are sent with
@@ -262,6 +262,13 @@ def model_graph(objs, closed=True, lib=None, stats=None):
         cspec = specs.get(base.__name__) if getattr(base, "__module__", None) == (lib or {}).get("pkg") else None
         for name, a in o.__xpmtype__.arguments.items():
             spec = cspec.get(name) if cspec else None
+            if spec is not None and table_idx is not None and base.__name__ in table_idx:
+                # (class, name): the model resolves the declaration in force through the class table (`lib` line) itself
+                if stats is not None:
+                    stats["flags:class-table"] = stats.get("flags:class-table", 0) + 1
+                args.append({"cls": table_idx[base.__name__], "name": hx(name), "dv": model_val(a.default, index),
+                             "value": model_val(x.values.get(name), index)})
+                continue
             if spec is not None and not (("default" in spec) and a.default is None):
                 if stats is not None:
                     stats["flags:declaration"] = stats.get("flags:declaration", 0) + 1
